@@ -18,6 +18,8 @@ pub struct Out {
     imports: String,
     shard_size: usize,
     cases: Vec<Case>,
+    /// per case: ("tie" | "oracle", known-defect class of the input if any)
+    meta: Vec<(&'static str, Option<String>)>,
     pub oracle_failures: Vec<Value>,
     pub hist: BTreeMap<String, u64>,
     pub extra: BTreeMap<String, Value>,
@@ -31,13 +33,22 @@ impl Out {
             imports: imports.to_string(),
             shard_size,
             cases: vec![],
+            meta: vec![],
             oracle_failures: vec![],
             hist: BTreeMap::new(),
             extra: BTreeMap::new(),
         }
     }
+    /// A correspondence case: the Gallina expression is the MODEL of the implementation.
     pub fn add(&mut self, c: Case) {
         self.cases.push(c);
+        self.meta.push(("tie", None));
+    }
+    /// A specification case: the Gallina expression is the property's SPEC, so a mismatch is a
+    /// violation of the property on this input (`class`: known-defect class of the input, if any).
+    pub fn add_spec(&mut self, c: Case, class: Option<String>) {
+        self.cases.push(c);
+        self.meta.push(("oracle", class));
     }
     pub fn count(&mut self, k: &str) {
         *self.hist.entry(k.to_string()).or_insert(0) += 1;
@@ -59,6 +70,7 @@ impl Out {
     pub fn finish(self) {
         let mut imp = fs::File::create(self.dir.join("impl.jsonl")).unwrap();
         let mut shard = 0usize;
+        let mut gidx = 0usize;
         for (k, chunk) in self.cases.chunks(self.shard_size.max(1)).enumerate() {
             shard = k + 1;
             let mut f = fs::File::create(self.dir.join(format!("cases_{k}.v"))).unwrap();
@@ -69,7 +81,9 @@ impl Out {
                 let sep = if i + 1 == chunk.len() { "" } else { ";" };
                 writeln!(f, "  ({}){}", c.coq, sep).unwrap();
                 let line = json!({"shard": k, "idx": i, "input": c.input, "impl": c.imp,
-                                  "nontrivial": c.nontrivial, "key": c.key});
+                                  "nontrivial": c.nontrivial, "key": c.key,
+                                  "kind": self.meta[gidx].0, "class": self.meta[gidx].1});
+                gidx += 1;
                 writeln!(imp, "{}", line).unwrap();
             }
             writeln!(f, "].\nEval vm_compute in results.").unwrap();
